@@ -22,6 +22,13 @@ def build_cases(tier, seed):
         for p in shapes.sample(shapes.routine_program(size, two, rec), cnt, seed * 31 + size):
             k += 1
             add(p, 'rt-s%d-%d' % (size, k))
+    n = 0
+    for p in shapes.enumerate_all(shapes.return_from_loops_program()):
+        n += 1
+        text = R.render(p)
+        if text not in seen:
+            seen.add(text)
+            cases.append(scripth.Case(p, specs=shapes.POPULATIONS['three'], tag='ret-loops-%d' % n, vm_steps=2500, ref_steps=900))
     return cases
 
 
@@ -38,7 +45,7 @@ def run(tier, seed):
              'returns at depth 0..2); all feasible paths on the real VM with symbolic arguments and globals, printed values compared '
              'with the reference semantics by z3',
         assumptions=common.SCRIPT_ASSUMPTIONS,
-        bounds={'shapes': len(cases), 'selection': 'seeded (VERIF_SEED) from the grammar in vlib/shapes.py:routine_program',
+        bounds={'shapes': len(cases), 'return_from_loop_nests': 'exhaustive: 4 outer x 3 inner loop kinds x 5 call-site styles, return position symbolic', 'selection': 'seeded (VERIF_SEED) from the grammar in vlib/shapes.py:routine_program',
                 'recursion_depth': '0..3 (symbolic)', 'repeat_counts': '1..2 (concrete) in routine bodies'},
         t0=t0, technique='bounded symbolic execution of the real compiler/VM calling sequence (proxy objects, z3) against a reference interpreter')
 
